@@ -75,14 +75,15 @@ def prealloc_cap_rule(ctx, crates, pid, floor):
                 if x.get("k") in ("call", "mcall") and re.search(r"with_capacity|reserve", (x.get("fn") or "") + "::" + (x.get("m") or "")):
                     for a in x.get("args") or []:
                         a2 = hirq.strip(a)
-                        if a2.get("k") == "mcall" and a2["m"] == "min":
+                        if (a2.get("k") == "mcall" and a2["m"] == "min") or (a2.get("k") == "call" and re.search(r"cmp::min$", a2.get("fn") or "")):
                             ctx.ok(R, {"fn": f.path.split("::")[-1], "line": x.get("ln"), "cap": hirq.render(a2)[:50], "form": "inline"}) if len(ctx.samples) < 250 else (ctx.rules[R].__setitem__("obligations", ctx.rules[R]["obligations"] + 1), ctx.rules[R].__setitem__("discharged", ctx.rules[R]["discharged"] + 1))
             caps = {}
             for l in hirq.find(body, "let"):
                 if l["pat"].get("k") == "bind" and l.get("init") is not None:
                     i = hirq.strip(l["init"])
-                    if i.get("k") == "mcall" and i["m"] == "min" and i.get("args"):
-                        k_ = hirq.strip(i["args"][0])
+                    is_min_call = i.get("k") == "call" and re.search(r"cmp::min$", i.get("fn") or "") and len(i.get("args") or []) == 2
+                    if (i.get("k") == "mcall" and i["m"] == "min" and i.get("args")) or is_min_call:
+                        k_ = hirq.strip(i["args"][-1])
                         if k_.get("k") == "lit" or (k_.get("k") == "path" and "def" in k_["res"]):
                             caps[l["pat"]["name"]] = l
             for nm, l in caps.items():
